@@ -31,6 +31,7 @@ func resolveDependentFields(
 	parentPackage string,
 	dependencies map[string]string,
 	subdefinition string,
+	resolving map[string]bool, // dependencies whose expansion is in progress, to detect cycles
 ) ([]Field, error) {
 	fields := []Field{}
 	for i, line := range strings.Split(subdefinition, "\n") {
@@ -85,27 +86,37 @@ func resolveDependentFields(
 			if typeIsQualified {
 				fieldParentPackage = strings.Split(fieldType, "/")[0]
 			}
+			dependencyName := fieldType
 			subdefinition, typeIsPresent := dependencies[fieldType]
 			switch {
 			case typeIsPresent:
 				break
 			case fieldType == "Header":
-				subdefinition, ok = dependencies["std_msgs/Header"]
+				dependencyName = "std_msgs/Header"
+				subdefinition, ok = dependencies[dependencyName]
 				if !ok {
 					return nil, fmt.Errorf("dependency Header not found")
 				}
 			case !typeIsPresent && !typeIsQualified:
 				qualifiedType := fieldParentPackage + "/" + fieldType
+				dependencyName = qualifiedType
 				subdefinition, ok = dependencies[qualifiedType]
 				if !ok {
 					return nil, fmt.Errorf("dependency %s not found", qualifiedType)
 				}
 			}
+			// a type that (directly or through other types) contains itself cannot be expanded
+			if resolving[dependencyName] {
+				return nil, fmt.Errorf("type %s is defined in terms of itself", dependencyName)
+			}
+			resolving[dependencyName] = true
 			recordFields, err = resolveDependentFields(
 				fieldParentPackage,
 				dependencies,
 				subdefinition,
+				resolving,
 			)
+			delete(resolving, dependencyName)
 			if err != nil {
 				return nil, fmt.Errorf("failed to resolve dependent record: %w", err)
 			}
@@ -167,7 +178,7 @@ func ParseMessageDefinition(parentPackage string, data []byte) ([]Field, error) 
 		rosType := strings.TrimPrefix(header, "MSG: ")
 		dependencies[rosType] = strings.Join(lines[1:], "\n")
 	}
-	fields, err := resolveDependentFields(parentPackage, dependencies, definition)
+	fields, err := resolveDependentFields(parentPackage, dependencies, definition, map[string]bool{})
 	if err != nil {
 		return nil, fmt.Errorf("failed to build dependent records: %w", err)
 	}
